@@ -449,8 +449,8 @@ func (t *KernMethod) getNextProposalID(ctx contract.KContext) (string, error) {
 
 func (t *KernMethod) unlockGovernTokensForProposal(ctx contract.KContext, proposalID string) error {
 	startKey := utils.MakeProposalLockPrefix(proposalID)
-	prefix := utils.MakeProposalLockPrefixSeparator(proposalID)
-	endKey := utils.PrefixRange([]byte(prefix))
+	// every key with the prefix "lock_<id>_" (the account name may start with any byte)
+	endKey := utils.PrefixRange([]byte(startKey))
 	iter, err := ctx.Select(utils.GetProposalBucket(), []byte(startKey), endKey)
 	if err != nil {
 		return fmt.Errorf("unlockGovernTokensForProposal failed, generate proposal lock key iterator error")
